@@ -40,6 +40,20 @@ def gen(rng, idx, tier):
     ev = bustraffic.history(rng, pad=pad, all_defs=rng.random() < 0.6, multi_def_bias=True,
                             repeat_seq=(rng.random() < 0.4) and not admission,
                             max_active=3 if rng.random() < 0.9 else 24, burst_fast=0 if rng.random() < 0.95 else rng.choice([17, 20, 33]))
+    # a talker whose value has not changed sends the very same single frame again, back to back: every format has to
+    # carry the second copy too
+    if rng.random() < 0.5:
+        nxt = max([e["m"] for e in ev if isinstance(e.get("m"), int)] + [0]) + 1
+        ev2 = []
+        for e in ev:
+            ev2.append(e)
+            if e["k"] == "single" and rng.random() < 0.15:
+                for _ in range(rng.choice([1, 1, 2])):
+                    d = dict(e)
+                    d["m"] = nxt
+                    nxt += 1
+                    ev2.append(d)
+        ev = ev2
     # one more listener is a single decoder object that receives every message through a format chosen per message
     # (frame-level or pre-assembled): what a format carries must not depend on what the decoder saw before
     mix = {}
